@@ -3,7 +3,7 @@ from ..common import Report
 from ..corpus import load, load_repo_tests, load_repo_examples
 from ..docgen import load_repo_docs
 from ..crossgen import load_cross
-from ..model import subst, ty_s
+from ..model import erase_regions_str, subst, ty_s
 from ..wrules import FnModView, ImplBlockView, trait_methods, impl_methods, last_seg, check_fnmod_predicates, is_mock_impl
 
 
@@ -31,10 +31,19 @@ def compare_sig(rep, key, exp, orig, tm, kind, dp):
         rep.add("R-SIG", key + " inputs", "trait method takes (%s), the original function (receiver substituted) takes (%s)"
                 % (", ".join(got_inputs), ", ".join(want)), where=exp.label())
     if not orig["asyncness"]:
-        go = ty_s(tm["sig"]["output"])
-        wo = ty_s(subst(orig["sig"]["output"], mapping))
-        if go != wo:
-            rep.add("R-SIG", key + " output", "trait method returns `%s`, the original returns `%s`" % (go, wo), where=exp.label())
+        to, oo = tm["sig"]["output"], orig["sig"]["output"]
+        if to.get("rpitit") or (oo.get("t") == "alias" and oo.get("kind") == "opaque"):
+            # `-> impl Trait`: the function's opaque type vs the trait method's return-position impl Trait are
+            # compared by their item bounds (lifetime names erased)
+            sa = sorted(erase_regions_str(c["s"]) for c in tm.get("output_bounds", []))
+            sb = sorted(erase_regions_str(c["s"]) for c in orig.get("output_bounds", []))
+            if sa != sb or not (to.get("rpitit") and oo.get("kind") == "opaque"):
+                rep.add("R-SIG", key + " output", "trait method returns `impl` with bounds %s, the original with bounds %s" % (sa, sb), where=exp.label())
+        else:
+            go = ty_s(to)
+            wo = ty_s(subst(oo, mapping))
+            if go != wo:
+                rep.add("R-SIG", key + " output", "trait method returns `%s`, the original returns `%s`" % (go, wo), where=exp.label())
     # lifetime structure: same number of late-bound regions (+1 for the inserted `&self` of no_deps)
     ob = orig["sig"]["bound_vars"] + (1 if kind == "nodeps" else 0)
     tb = tm["sig"]["bound_vars"]
